@@ -33,7 +33,7 @@ PREAUTH = ["SELECT inbox", "EXAMINE inbox", "LIST \"\" *", "LSUB \"\" *", "STATU
            "UID FETCH 1:* FLAGS", "STORE 1 +FLAGS (\\Deleted)", "EXPUNGE", "COPY 1 inbox", "SEARCH ALL", "APPEND inbox {3+}\r\nabc", "IDLE", "CHECK", "CLOSE",
            "SUBSCRIBE inbox", "MOVE 1 inbox", "NAMESPACE"]
 USERS = {
-    "alice": {"password": "alicepw"}, "bob": {"password": "bobpw"}, "carol": {"password": "carolpw"},
+    "alice": {"password": "alicepw"}, "bob": {"password": "bobpw"}, "carol": {"password": 'ca"rol\\pw'},
     "dis": {"hash": "!disabledhashdisabledhashdisabledhashdisab"}, "nodir": {"password": "nodirpw", "maildir": False},
 }
 
@@ -210,7 +210,8 @@ def execute(program, opts):
                 n_chg = len(changes)
                 n_dec = len(decisions)
                 n_fail = len(fail_calls)
-                r = await s.command(f'LOGIN {user} "{pw}"' if pw != "" else f'LOGIN {user} ""', timeout=90.0)
+                qpw = pw.replace("\\", "\\\\").replace('"', '\\"')  # as a quoted string
+                r = await s.command(f'LOGIN {user} "{qpw}"' if pw != "" else f'LOGIN {user} ""', timeout=90.0)
                 C("c18_login_attempt")
                 ctx.sig(cid, "login", user, right, r.status)
                 if r.status is None:
